@@ -88,7 +88,7 @@ func TestC04(t *testing.T) {
 	st := StatsFor("C04")
 	rapid.Check(t, func(t *rapid.T) {
 		cfg := GenDistrCfg(t, c04Opts())
-		blocks := drawBlocks(t, 1, 7, 80)
+		blocks := drawBlocks(t, cfg, 1, 7, 80)
 		inflows := genInflows(t, cfg, blocks, 30)
 		// the bank's send-enabled switch (a governance parameter): off by default or for one denomination
 		distrSendSwitch = []string{"", "", "", "default", Denom, "uatom"}[rapid.IntRange(0, 5).Draw(t, "sendSwitch")]
